@@ -8,7 +8,7 @@
     Clauses of one family are grouped in one theorem (one [Print Assumptions] per theorem). *)
 From Coq Require Import Reals ZArith List.
 From Coquelicot Require Import Coquelicot.
-From LP Require Import Num NumR C07_Model C07_Proofs_Cont C07_Proofs_Disc C07_Proofs_Chi C07_Proofs_Ex.
+From LP Require Import Num NumR C07_Model C07_Proofs_Cont C07_Proofs_ErfBound C07_Proofs_Disc C07_Proofs_Chi C07_Proofs_Ex.
 Import ListNotations.
 Local Open Scope R_scope.
 
@@ -65,13 +65,35 @@ Theorem C07_gauss_cdf_difference_is_integral mu s : 0 < s -> forall u v,
   is_RInt (fun x => pdf_gauss ROps PI x mu s) u v (cdf_gauss ROps v mu s - cdf_gauss ROps u mu s).
 Proof. exact (gauss_is_RInt mu s). Qed.
 Print Assumptions C07_gauss_cdf_difference_is_integral.
-(** Full clause "the CDF runs from 0 to 1" for the normal CDF needs |erf| <= 1 (the Gaussian integral), which is not
-    proved here.  Proved part: the median and the point symmetry CDF(mu+d) + CDF(mu-d) = 1 (erf is odd).
-    The range [0,1] is an S4 predicate on the implementation. *)
-Theorem C07_gauss_cdf_range_partial mu s : 0 < s ->
+(** The error function of the real instance ([Rerf x] = 2/sqrt(PI) * RInt (fun t => exp (-(t*t))) 0 x, a definition,
+    not an axiom) is bounded by 1 in absolute value at EVERY real x.  Proved without improper integrals from
+      (int_0^x e^(-t^2) dt)^2 = PI/4 - int_0^1 e^(-x^2 (1+t^2)) / (1+t^2) dt        ([gauss_square_identity])
+    (the derivative of the sum of both sides' terms vanishes — differentiation under the integral sign on [0,1] —
+    and at x = 0 it is atan 1 = PI/4); the last integral is > 0. *)
+Theorem C07_erf_bounded x : -1 < Rerf x < 1.
+Proof. exact (Rerf_bounded x). Qed.
+Print Assumptions C07_erf_bounded.
+Theorem C07_gauss_square_identity x :
+  Rsqr (RInt (fun t => exp (- (t * t))) 0 x) = PI / 4 - RInt (fun t => exp (- (x * x * (1 + t * t))) / (1 + t * t)) 0 1.
+Proof. exact (gauss_square_identity x). Qed.
+Print Assumptions C07_gauss_square_identity.
+(** the tail: 1 - e^(-x^2) <= erf x for x >= 0 (from the identity, J(x) <= e^(-x^2) PI/4), hence the limits +-1 —
+    the Gaussian integral int_0^inf e^(-t^2) dt = sqrt(PI)/2 *)
+Theorem C07_erf_limits :
+  (forall x, 0 <= x -> 1 - exp (- (x * x)) <= Rerf x) /\ is_lim Rerf p_infty 1 /\ is_lim Rerf m_infty (-1).
+Proof. exact (conj Rerf_tail (conj Rerf_lim_p Rerf_lim_m)). Qed.
+Print Assumptions C07_erf_limits.
+(** "the CDF runs from 0 to 1": strictly inside (0,1) at every x (|erf| < 1), limit 1 at +infinity and 0 at -infinity,
+    the median, and the point symmetry CDF(mu+d) + CDF(mu-d) = 1 (erf is odd); monotone: C07_gauss_density_and_cdf *)
+Theorem C07_gauss_cdf_range mu s : 0 < s ->
+  (forall x, 0 < cdf_gauss ROps x mu s < 1) /\
+  is_lim (fun x => cdf_gauss ROps x mu s) p_infty 1 /\ is_lim (fun x => cdf_gauss ROps x mu s) m_infty 0 /\
   cdf_gauss ROps mu mu s = 1 / 2 /\ forall d, cdf_gauss ROps (mu + d) mu s + cdf_gauss ROps (mu - d) mu s = 1.
-Proof. exact (fun H => conj (gauss_cdf_median mu s H) (gauss_cdf_symmetry mu s H)). Qed.
-Print Assumptions C07_gauss_cdf_range_partial.
+Proof.
+  exact (fun H => conj (gauss_cdf_range mu s) (conj (proj1 (gauss_cdf_limits mu s H)) (conj (proj2 (gauss_cdf_limits mu s H))
+          (conj (gauss_cdf_median mu s H) (gauss_cdf_symmetry mu s H))))).
+Qed.
+Print Assumptions C07_gauss_cdf_range.
 
 (** ** Maxwell-Boltzmann, a > 0 *)
 Theorem C07_maxwell_boltzmann_density_and_cdf a : 0 < a ->
@@ -88,11 +110,14 @@ Theorem C07_maxwell_boltzmann_cdf_difference_is_integral a : 0 < a -> forall u v
           (val (cdf_maxwell_boltzmann ROps PI v a) - val (cdf_maxwell_boltzmann ROps PI u a)).
 Proof. exact (mb_is_RInt a). Qed.
 Print Assumptions C07_maxwell_boltzmann_cdf_difference_is_integral.
-(** Full clause "from 0 to 1": the upper bound 1 needs |erf| <= 1 and is not proved; proved part: 0 below the support, >= 0 *)
-Theorem C07_maxwell_boltzmann_cdf_range_partial a : 0 < a ->
-  (forall x, x <= 0 -> val (cdf_maxwell_boltzmann ROps PI x a) = 0) /\ (forall x, 0 <= val (cdf_maxwell_boltzmann ROps PI x a)).
-Proof. exact (fun H => conj (cdf_mb_neg a) (mb_cdf_nonneg a H)). Qed.
-Print Assumptions C07_maxwell_boltzmann_cdf_range_partial.
+(** "from 0 to 1": 0 below the support, 0 <= CDF < 1 everywhere (erf < 1 and the subtracted term is >= 0 for x >= 0),
+    limit 1 at +infinity *)
+Theorem C07_maxwell_boltzmann_cdf_range a : 0 < a ->
+  (forall x, x <= 0 -> val (cdf_maxwell_boltzmann ROps PI x a) = 0) /\
+  (forall x, 0 <= val (cdf_maxwell_boltzmann ROps PI x a) < 1) /\
+  is_lim (fun x => val (cdf_maxwell_boltzmann ROps PI x a)) p_infty 1.
+Proof. exact (fun H => conj (cdf_mb_neg a) (conj (mb_cdf_range a H) (mb_cdf_limit a H))). Qed.
+Print Assumptions C07_maxwell_boltzmann_cdf_range.
 
 (** non-positive mean / scale, p outside [0,1], negative Poisson mean, cdf outside [0,1] terminate the process *)
 Theorem C07_parameter_guards :
